@@ -73,8 +73,8 @@ func (f xform) String() string {
 	return strings.Join(s, ",")
 }
 
-func xRegOf(n int) xc  { return map[int]xc{8: xR8, 16: xR16, 32: xR32, 64: xR64}[n] }
-func xMemOf(n int) xc  { return map[int]xc{8: xM8, 16: xM16, 32: xM32, 64: xM64}[n] }
+func xRegOf(n int) xc { return map[int]xc{8: xR8, 16: xR16, 32: xR32, 64: xR64}[n] }
+func xMemOf(n int) xc { return map[int]xc{8: xM8, 16: xM16, 32: xM32, 64: xM64}[n] }
 func xSize(c xc) int {
 	switch c {
 	case xR8, xR8H, xM8, xCL:
@@ -155,7 +155,7 @@ var x64Forms = map[string][]xform{
 	"cvttss2si": {{xR32, xXMM}, {xR64, xXMM}, {xR32, xM32}, {xR64, xM32}},
 	"roundsd":   {{xXMM, xXMM, xIMM8}, {xXMM, xM64, xIMM8}},
 	"roundss":   {{xXMM, xXMM, xIMM8}, {xXMM, xM32, xIMM8}},
-	"cdq": {{}}, "cqo": {{}}, "nop": {{}}, "ret": {{}}, "std": {{}}, "syscall": {{}},
+	"cdq":       {{}}, "cqo": {{}}, "nop": {{}}, "ret": {{}}, "std": {{}}, "syscall": {{}},
 }
 
 var x64Alias = map[string]string{"jz": "je", "jnz": "jne", "movabs": "mov"} // X1 X2
